@@ -23,6 +23,11 @@ def generate_traced(params):
     if p.get("address_space_bounds") is not None and \
             p.get("seed", 0) % 2 == 0:
         p["address_space_bounds"] = tuple(p["address_space_bounds"])
+    if p.pop("probs_as_numpy", False):
+        # a NumPy float is a float
+        for k in ("exploit_probs", "privesc_probs"):
+            if isinstance(p.get(k), float):
+                p[k] = np.float64(p[k])
     info = {"lines": 0, "draws": 0}
     st = np.random.get_state()
     scen = None
@@ -235,6 +240,8 @@ def c15_run_one(prop, tier, root, idx, extra):
     rng = core.stream(seed, "cfg")
     params = configs.gen_params(rng, max_hosts=120, allow_alpha1=True,
                                 small_bias=True)
+    if rng.random() < 0.3:
+        params["probs_as_numpy"] = True
     if rng.random() < 0.03 and params.get("address_space_bounds") is None:
         # several hundred hosts: the DMZ / sensitive subnets outgrow the
         # user subnets (more than 5 hosts) from 201 hosts on
@@ -255,6 +262,24 @@ def c15_execute(trace, tier, res):
         c15_check(params, scen, info, counters)
     except Violation as v:
         res["violation"] = v.to_json()
+    if scen is not None:
+        # the returned scenario belongs to the caller: wrecking it must not
+        # influence later generations in this process
+        try:
+            sd = scen.scenario_dict
+            np.asarray(sd["topology"])[...] = 0
+            sd["firewall"].clear()
+            sd["sensitive_hosts"].clear()
+            sd["exploits"].clear()
+            sd["privilege_escalation"].clear()
+            for h in sd["host"].values():
+                h.os.clear()
+                h.services.clear()
+                h.processes.clear()
+            del sd["os"][:], sd["services"][:], sd["processes"][:]
+            counters.hit("fault.caller_wrecks_returned_scenario")
+        except Exception:
+            pass
     res["counters"] = dict(counters)
     res["ops"] = 1
     res["steps"] = info["lines"]
